@@ -49,6 +49,21 @@ CLAIMED = {
         "NOT covered; numeric const expressions are not folded by the evaluator at all (value None: the initializer is emitted as Rust), so their run-time "
         "agreement rests on the emission obligations of C01/C07.",
    ref="DESIGN.md section 0.5, C06"),
+ "C08": dict(
+   cat="model_checking", tech="enum-level symbolic execution of rustc MIR + SMT (z3): every arm of the formatter's printers on a symbolic AST node with the real FormatWriter code; the printed text of each path class re-parsed by the real lexer + parser",
+   text="Solver-based, bounded, PER-NODE round trip: Formatter::{format_expr, format_literal, format_pattern, format_type, format_statement, format_param, format_field, "
+        "format_decorator, format_method, format_declaration} are executed symbolically from the whole-crate MIR on a symbolic AST node of each variant (optional parts, "
+        "operators, flags and list lengths 0..=2, thorough 3, all symbolic; child nodes are atoms written through the real FormatWriter::{write, writeln, newline, indent, dedent, "
+        "write_indent} code on a concrete writer state). Every feasible path (feasibility = the solver's verdict) yields the exact text printed for that class of nodes; the text is "
+        "parsed by the real lexer + parser and must give back the class's own AST (span-free Debug equality against a value generated from the type definitions and the path facts); "
+        "a field the printer never examines is a deviation by itself. Classes no source text parses to are excluded by stated grammar preconditions (AST variants the parser never "
+        "constructs, minimum list lengths, the fixed shape of closure parameters ...). Deviations are believed only after the documented example sentences of the arm fail the real "
+        "text -> parse -> format -> parse round trip in dev and release.",
+   note="Per-node only: children are atoms, so the claim for nested programs is the composition of the per-node obligations (the AST keeps explicit Paren nodes, the printer adds none); "
+        "names are plain identifiers; NOT covered at solver level: bytes literals, imports (format_import_path loops over a symbolic count), docstrings, string escaping "
+        "(escape_string - exercised by the example sentences only), comments (the AST has none: they are dropped, which the property's list does not mention), line-length "
+        "dependent layout (the formatter has none). Thirteen genuine defects found by this check were repaired in /repo (known_findings.json, fixed:).",
+   ref="DESIGN.md section 0.7, C08"),
  "C13": dict(
    cat="model_checking", tech="bounded model checking of the compiled code (Kani/CBMC, symbolic identifier) + enum-level MIR symbolic execution of the emission plan",
    text="Solver-based, bounded, KERNEL of the property: (a) for EVERY identifier-shaped name of 2..8 bytes the keyword table used for escaping (is_keyword) recognises every "
@@ -154,7 +169,7 @@ m = {
  "engines": [
    {"name": "E1 kani", "path": "kani/", "serves_properties": [c for c in ("C01", "C05", "C07", "C11", "C13", "C14", "C19") if c in claimed],
     "kind_free_text": "Kani 0.68 / CBMC 6.11 proof harnesses in an external crate with path dependencies on /repo; counterexamples replayed by replay/ (same harness bodies, native, dev+release)"},
-   {"name": "E2 mirsmt", "path": "mirsmt/", "serves_properties": [c for c in ("C01", "C03", "C04", "C05", "C06", "C07", "C11", "C13", "C14", "C17") if c in claimed],
+   {"name": "E2 mirsmt", "path": "mirsmt/", "serves_properties": [c for c in ("C01", "C03", "C04", "C05", "C06", "C07", "C08", "C09", "C11", "C12", "C13", "C14", "C15", "C17") if c in claimed],
     "kind_free_text": "own symbolic executor over rustc's -Zunpretty=mir dump of the working tree, emitting SMT-LIB for cvc5 1.0 / z3 4.8.12"},
  ],
  "checks": [],
@@ -170,7 +185,7 @@ for pid in sorted(CLAIMED):
             "thorough_cmd": f"./check {pid} --tier thorough",
             "evidence_file": f"/verif/evidence/{pid}.json",
             "replay_cmd_template": f"./check {pid} --replay {{path}}",
-            "engine": {"C04": "E2 mirsmt + E1 kani", "C05": "E1 kani + E2 mirsmt", "C06": "E2 mirsmt + E1 kani", "C01": "E2 mirsmt + E1 kani", "C07": "E2 mirsmt + E1 kani", "C13": "E1 kani + E2 mirsmt", "C11": "E1 kani + E2 mirsmt", "C14": "E1 kani + E2 mirsmt", "C17": "E2 mirsmt", "C03": "E2 mirsmt"}.get(pid, "E1 kani"),
+            "engine": {"C04": "E2 mirsmt + E1 kani", "C05": "E1 kani + E2 mirsmt", "C06": "E2 mirsmt + E1 kani", "C01": "E2 mirsmt + E1 kani", "C07": "E2 mirsmt + E1 kani", "C13": "E1 kani + E2 mirsmt", "C11": "E1 kani + E2 mirsmt", "C14": "E1 kani + E2 mirsmt", "C17": "E2 mirsmt", "C03": "E2 mirsmt", "C08": "E2 mirsmt", "C09": "E2 mirsmt", "C12": "E2 mirsmt", "C15": "E2 mirsmt"}.get(pid, "E1 kani"),
             "level_claimed": {"category": c["cat"], "text": c["text"], "design_ref": c["ref"]},
             "level_note": c["note"],
             "technique": c["tech"],
